@@ -100,6 +100,49 @@ func vf41NewPKI(t testing.TB) *vf41PKI {
 	leaf("Bself", true, ok0, ok1, false)
 	p.leafDER["CA"] = p.caDER
 
+	// certificates that imitate Avalid (none has its SHA-256)
+	pinned, err := x509.ParseCertificate(p.leafDER["Avalid"])
+	if err != nil {
+		t.Fatal(err)
+	}
+	imitate := func(name string, serial *big.Int, key *ecdsa.PrivateKey, signer *x509.Certificate, signerKey *ecdsa.PrivateKey,
+		extra [][]byte) {
+		tpl := &x509.Certificate{
+			SerialNumber: serial, Subject: pinned.Subject, NotBefore: ok0, NotAfter: ok1,
+			KeyUsage: x509.KeyUsageDigitalSignature, ExtKeyUsage: []x509.ExtKeyUsage{x509.ExtKeyUsageServerAuth},
+			BasicConstraintsValid: true, IPAddresses: []net.IP{net.ParseIP("127.0.0.1")},
+		}
+		parent := signer
+		if parent == nil { // self-signed
+			parent, signerKey = tpl, key
+		}
+		der, err2 := x509.CreateCertificate(rand.Reader, tpl, parent, &key.PublicKey, signerKey)
+		if err2 != nil {
+			t.Fatal(err2)
+		}
+		p.leafDER[name] = der
+		p.certs[name] = ctls.Certificate{Certificate: append([][]byte{der}, extra...), PrivateKey: key}
+	}
+	// a look-alike CA: the subject DN of the real CA, another key
+	fakeKey := newKey()
+	fakeTpl := *caTpl
+	fakeDER, err := x509.CreateCertificate(rand.Reader, &fakeTpl, &fakeTpl, &fakeKey.PublicKey, fakeKey)
+	if err != nil {
+		t.Fatal(err)
+	}
+	fakeCA, err := x509.ParseCertificate(fakeDER)
+	if err != nil {
+		t.Fatal(err)
+	}
+	imitate("AfSame", pinned.SerialNumber, newKey(), fakeCA, fakeKey, [][]byte{fakeDER}) // same issuer DN + serial
+	imitate("AfSubj", big.NewInt(7001), newKey(), nil, nil, nil)                         // same subject / SANs
+	imitate("Areissued", big.NewInt(7002), p.certs["Avalid"].PrivateKey.(*ecdsa.PrivateKey), caCert, caKey,
+		[][]byte{p.caDER}) // same key and subject, another serial
+	fs, _ := x509.ParseCertificate(p.leafDER["AfSame"])
+	if string(fs.RawIssuer) != string(pinned.RawIssuer) || fs.SerialNumber.Cmp(pinned.SerialNumber) != 0 {
+		t.Fatal("vf41: the forged certificate does not carry the issuer DN and serial of the pinned one")
+	}
+
 	// the harness process trusts the harness CA (and nothing else): "chain valid" is meaningful
 	dir := t.TempDir()
 	f := filepath.Join(dir, "roots.pem")
@@ -167,6 +210,7 @@ type vf41Case struct {
 	Ver    string   `json:"ver"`
 	FP     vf41FP   `json:"fp"`    // single connection
 	Steps  []vf41FP `json:"steps"` // or a sequence of connections to the same server in this process
+	Certs  []string `json:"certs"` // or a sequence on ONE reused configuration while the server changes its certificate
 }
 
 // certificate or pin failures are outcomes; anything else (timeouts, refused connections) is a harness problem
@@ -206,6 +250,84 @@ func TestVerif_C41_Handshake(t *testing.T) {
 		s.StartTLS()
 		servers[k] = s
 		return s
+	}
+
+	// a server whose certificate the test changes between connections
+	var swapCert atomic.Value
+	swapServer := func(ver string) *httptest.Server {
+		k := "swap/" + ver
+		if s, ok := servers[k]; ok {
+			return s
+		}
+		s := httptest.NewUnstartedServer(http.HandlerFunc(func(w http.ResponseWriter, _ *http.Request) {
+			served.Add(1)
+			w.Write([]byte("ok")) //nolint:errcheck
+		}))
+		cfg := &ctls.Config{GetCertificate: func(*ctls.ClientHelloInfo) (*ctls.Certificate, error) {
+			c := pki.certs[swapCert.Load().(string)]
+			return &c, nil
+		}}
+		if ver == "tls12" {
+			cfg.MaxVersion = ctls.VersionTLS12
+		} else {
+			cfg.MinVersion = ctls.VersionTLS13
+		}
+		s.Config.ErrorLog = nil
+		// (httptest.StartTLS installs its own certificate, which takes precedence when no SNI is sent)
+		s.Listener = ctls.NewListener(s.Listener, cfg)
+		s.Start()
+		s.URL = "https://" + s.Listener.Addr().String()
+		servers[k] = s
+		return s
+	}
+	// connections of one sequence made with ONE configuration (one *tls.Config, one http.Client)
+	swapRun := func(c *vf41Case) []map[string]any {
+		srv := swapServer(c.Ver)
+		addr := strings.TrimPrefix(srv.URL, "https://")
+		fp := pki.fingerprint(c.FP.Of, c.FP.Form)
+		conf := MakeConfig(fp) // the code under test, called once for the whole sequence
+		tr := &http.Transport{TLSClientConfig: conf, DisableKeepAlives: true}
+		hc := &http.Client{Transport: tr, Timeout: 20 * time.Second}
+		defer tr.CloseIdleConnections()
+		steps := []map[string]any{}
+		for _, cert := range c.Certs {
+			swapCert.Store(cert)
+			var err error
+			switch c.Via {
+			case "dial":
+				var conn *ctls.Conn
+				conn, err = ctls.DialWithDialer(&net.Dialer{Timeout: 20 * time.Second}, "tcp", addr, conf)
+				if err == nil {
+					conn.SetDeadline(time.Now().Add(20 * time.Second))      //nolint:errcheck
+					conn.Write([]byte("GET / HTTP/1.0\r\nHost: x\r\n\r\n")) //nolint:errcheck
+					io.ReadAll(conn)                                        //nolint:errcheck
+					conn.Close()
+				}
+			case "httpget":
+				var res *http.Response
+				res, err = hc.Get(srv.URL + "/")
+				if err == nil {
+					io.Copy(io.Discard, res.Body) //nolint:errcheck
+					res.Body.Close()
+				}
+			default:
+				t.Fatalf("vf41: unknown via %q", c.Via)
+			}
+			rec := map[string]any{"success": err == nil, "eqfold": strings.EqualFold(fp, pki.hexOf(cert)), "fptext": fp,
+				"served": cert}
+			if err != nil {
+				if !vf41ExpectedFailure(err) {
+					t.Fatalf("vf41: connection failed for a reason that is not a certificate decision: %v", err)
+				}
+				msg := err.Error()
+				if len(msg) > 160 {
+					msg = msg[:160]
+				}
+				rec["err"] = msg
+			}
+			steps = append(steps, rec)
+		}
+		return steps
 	}
 
 	// one connection made with MakeConfig(fingerprint). exchange: application data is sent and read on
@@ -280,6 +402,10 @@ func TestVerif_C41_Handshake(t *testing.T) {
 		verifrt.Decode(t, raw, &line)
 		var c vf41Case
 		verifrt.Decode(t, line.C, &c)
+		if c.Certs != nil {
+			out.Emit(map[string]any{"id": line.ID, "c": line.C, "steps": swapRun(&c)})
+			return
+		}
 		if c.Steps == nil {
 			rec := connect(&c, c.FP, false)
 			rec["id"], rec["c"] = line.ID, line.C
